@@ -555,7 +555,7 @@ func c19(ctx *run.Ctx) {
 	}
 	defer os.RemoveAll(dir)
 	file := filepath.Join(dir, fmt.Sprintf("doc-%d.csv", ctx.Shard))
-	nMut := ctx.Pick(400, 3000)
+	nMut := ctx.Pick(400, 200000)
 	for _, sh := range csvShapes() {
 		sh := sh
 		ctx.Count("cmp:csv/"+sh.name, 0)
